@@ -183,7 +183,19 @@ def render_entry(entry, ensure_ascii=True):
     return json.dumps(entry[1], ensure_ascii=ensure_ascii)
 
 
+def _has_surrogate(text):
+    return any(0xD800 <= ord(c) <= 0xDFFF for c in text)
+
+
 def render_body(body, ensure_ascii=True):
+    text = _render_body(body, ensure_ascii)
+    if not ensure_ascii and body[0] != "text" and _has_surrogate(text):
+        # a character sequence cannot hold a lone surrogate: spell it with escapes
+        text = _render_body(body, True)
+    return text
+
+
+def _render_body(body, ensure_ascii=True):
     kind = body[0]
     if kind == "single":
         return render_entry(body[1], ensure_ascii)
@@ -317,6 +329,10 @@ def parse_reply(out, sigprefix="C02"):
     if out == "":
         return [], None
     try:
+        out.encode("utf-8")
+    except UnicodeEncodeError as ex:
+        fail(sigprefix + "/reply-not-encodable", "the reply text cannot be encoded as UTF-8 (%s): it cannot be sent" % ex, ascii(out[:300]))
+    try:
         got = gen.strict_json_loads(out)
     except Exception as ex:
         fail(sigprefix + "/reply-not-json", "reply is not strict JSON: %s" % ex, out[:500])
@@ -342,10 +358,16 @@ def compare(out, exp):
 
     try:
         got, single = parse_reply(out)
+    except Violation as v:
+        return [v]
+    try:
         for o in got:
             check_response_object(o)
     except Violation as v:
-        return [v]
+        found = [v]
+        if single is False and any(not isinstance(o, dict) for o in got):
+            found.append(Violation("C03/batch-entry-not-a-response", "the batch reply holds an entry that is not a response object: %r" % (out[:300],)))
+        return found
     want = exp.responses
     has_notif = any(k.startswith("notification") for k in exp.kinds)
     if not want:
